@@ -29,6 +29,7 @@ import (
 	"google.golang.org/grpc/codes"
 	"google.golang.org/grpc/credentials"
 	"google.golang.org/grpc/status"
+	"google.golang.org/protobuf/proto"
 )
 
 // env holds what is built once per test process: the two binaries and a certificate.
@@ -183,20 +184,102 @@ type play struct {
 	unscripted int   // streams that ended without the script asking for it (before the case was over)
 	hbNext     atomic.Int64
 	stalled    bool
+	// resubExpected: the next Subscribe call is one the script expects (the first, or the one after a scripted break)
+	resubExpected bool
+	// the SubscribeResponses this target sent (measured where they are sent; labels and the non-trivial rule only)
+	sizes sizeStats
 	// only touched by the handler holding serial
 	m  *model
 	ts int64
 }
+
+// sizeStats: what the largest single SubscribeResponses of a target looked like.
+type sizeStats struct {
+	maxBytes, maxUpdates, maxValue     int
+	over4Burst, over4Stream, over8     bool // encoded size above 4 MiB before / after the stream's sync_response; above 8 MiB
+	manyBurst, manyStream              bool // >= 1000 updates in one response, before / after the stream's sync_response
+	over4Atomic, over4WhileObserved    bool
+	bigString, bigBytes, resentOnAgain bool
+}
+
+const (
+	mib         = 1 << 20
+	manyUpdates = 1000
+)
 
 // guarded is one stream of a scripted target: the script and the heartbeats share it.
 type guarded struct {
 	mu     sync.Mutex
 	stream pb.GNMI_SubscribeServer
 	quiet  bool // a "silence" break: nothing is sent any more
+	// only touched by the handler that plays the script
+	h      *hub
+	p      *play
+	again  bool // not the target's first stream
+	synced bool // this stream's sync_response has been sent
+}
+
+// measure records the size of a response the script is about to send.
+func (g *guarded) measure(r *pb.SubscribeResponse) {
+	if r.GetSyncResponse() {
+		g.synced = true
+		return
+	}
+	n := r.GetUpdate()
+	size, ups := proto.Size(r), len(n.GetUpdate())
+	if size <= mib && ups < manyUpdates {
+		return
+	}
+	h, z := g.h, &g.p.sizes
+	h.mu.Lock()
+	defer h.mu.Unlock()
+	if size > z.maxBytes {
+		z.maxBytes = size
+	}
+	if ups > z.maxUpdates {
+		z.maxUpdates = ups
+	}
+	for _, u := range n.GetUpdate() {
+		var l int
+		switch v := u.GetVal().GetValue().(type) {
+		case *pb.TypedValue_StringVal:
+			l = len(v.StringVal)
+			z.bigString = z.bigString || l >= mib/2
+		case *pb.TypedValue_BytesVal:
+			l = len(v.BytesVal)
+			z.bigBytes = z.bigBytes || l >= mib/2
+		}
+		if l > z.maxValue {
+			z.maxValue = l
+		}
+	}
+	if size > 4*mib {
+		if g.synced {
+			z.over4Stream = true
+		} else {
+			z.over4Burst = true
+		}
+		z.over8 = z.over8 || size > 8*mib
+		z.over4Atomic = z.over4Atomic || n.GetAtomic()
+		z.resentOnAgain = z.resentOnAgain || g.again
+		for _, o := range h.obs {
+			if o.synced && !o.ended && (o.target == "*" || o.target == g.p.name) {
+				z.over4WhileObserved = true
+			}
+		}
+	}
+	if ups >= manyUpdates {
+		if g.synced {
+			z.manyStream = true
+		} else {
+			z.manyBurst = true
+		}
+	}
 }
 
 func (g *guarded) send(rs []*pb.SubscribeResponse) error {
 	for _, r := range rs {
+		g.measure(r)
 		g.mu.Lock()
 		err := g.stream.Send(r)
 		g.mu.Unlock()
@@ -309,7 +392,7 @@ type scriptedServer struct {
 }
 
 func (s *scriptedServer) addScript(tg Target, id string) {
-	p := &play{name: tg.Name, ops: tg.Ops, id: id, m: newModel(), ts: time.Now().UnixNano(), rt: time.Duration(tg.RecvTimeoutMs) * time.Millisecond}
+	p := &play{name: tg.Name, ops: tg.Ops, id: id, m: newModel(), ts: time.Now().UnixNano(), rt: time.Duration(tg.RecvTimeoutMs) * time.Millisecond, resubExpected: true}
 	s.h.change(func() { s.h.plays[tg.Name] = p })
 }
 
@@ -335,9 +418,21 @@ func (s *scriptedServer) Subscribe(stream pb.GNMI_SubscribeServer) error {
 		<-stream.Context().Done()
 		return nil
 	}
-	g := &guarded{stream: stream}
+	g := &guarded{stream: stream, h: h, p: p}
 	var again bool
-	h.change(func() { p.conns++; again = p.conns > 1; p.active = true; h.progress = time.Now() })
+	h.change(func() {
+		p.conns++
+		again = p.conns > 1
+		p.active = true
+		// A Subscribe call is progress of the script when the script waits for one: the first, and the one after a
+		// break it made. A collector that loses the stream on its own and subscribes again and again is not moving
+		// the script (hang rule: nothing the script does happened for 20 s).
+		if p.resubExpected {
+			h.progress = time.Now()
+		}
+		p.resubExpected = false
+	})
+	g.again = again
 	defer h.change(func() { p.active = false })
 	// a stream that ends without the script asking for it (the collector's receive timeout on a loaded machine,
 	// say) is no violation and decides nothing, but a case in which it happened cannot end with a verdict against
@@ -416,6 +511,7 @@ func (s *scriptedServer) Subscribe(stream pb.GNMI_SubscribeServer) error {
 		case "break":
 			p.m.apply(o, nil)
 			scripted = true
+			h.change(func() { p.resubExpected = true })
 			switch {
 			case o.Via == "rpc":
 				// the collector is asked to drop and re-establish this target's stream; the handler returns when
@@ -525,7 +621,10 @@ func freePort() (int, error) {
 	return l.Addr().(*net.TCPAddr).Port, nil
 }
 
-func startCollector(e *env, dir, configFile string, noMeta bool) (*collectorProc, error) {
+func startCollector(e *env, dir, configFile string, noMeta bool, dialTimeout time.Duration) (*collectorProc, error) {
+	if dialTimeout <= 0 {
+		dialTimeout = 10 * time.Second
+	}
 	for attempt := 0; attempt < 3; attempt++ {
 		port, err := freePort()
 		if err != nil {
@@ -536,7 +635,7 @@ func startCollector(e *env, dir, configFile string, noMeta bool) (*collectorProc
 		if err != nil {
 			return nil, err
 		}
-		args := []string{"-config_file", configFile, "-cert_file", e.cert, "-key_file", e.key, "-port", fmt.Sprint(port), "-dial_timeout", "10s", "-logtostderr"}
+		args := []string{"-config_file", configFile, "-cert_file", e.cert, "-key_file", e.key, "-port", fmt.Sprint(port), "-dial_timeout", dialTimeout.String(), "-logtostderr"}
 		if !noMeta {
 			args = append(args, "-metadata_update_period", "200ms")
 		}
@@ -621,6 +720,36 @@ func (b *bytesBuffer) Write(p []byte) (int, error) {
 func (b *bytesBuffer) String() string { b.mu.Lock(); defer b.mu.Unlock(); return string(b.b) }
 
 // ---- targets with a receive timeout: was the stream stable around an observation? ---------------
+
+// sizes merges what the targets of the case sent.
+func (h *hub) sizes() sizeStats {
+	h.mu.Lock()
+	defer h.mu.Unlock()
+	var z sizeStats
+	for _, p := range h.plays {
+		q := p.sizes
+		if q.maxBytes > z.maxBytes {
+			z.maxBytes = q.maxBytes
+		}
+		if q.maxUpdates > z.maxUpdates {
+			z.maxUpdates = q.maxUpdates
+		}
+		if q.maxValue > z.maxValue {
+			z.maxValue = q.maxValue
+		}
+		z.over4Burst = z.over4Burst || q.over4Burst
+		z.over4Stream = z.over4Stream || q.over4Stream
+		z.over8 = z.over8 || q.over8
+		z.manyBurst = z.manyBurst || q.manyBurst
+		z.manyStream = z.manyStream || q.manyStream
+		z.over4Atomic = z.over4Atomic || q.over4Atomic
+		z.over4WhileObserved = z.over4WhileObserved || q.over4WhileObserved
+		z.bigString = z.bigString || q.bigString
+		z.bigBytes = z.bigBytes || q.bigBytes
+		z.resentOnAgain = z.resentOnAgain || q.resentOnAgain
+	}
+	return z
+}
 
 // unscriptedEnds counts the streams of targets WITH a receive timeout that ended although the script had not asked for it.
 func (h *hub) unscriptedEnds() int {
